@@ -161,6 +161,11 @@ def gen_base_ops(rng, kind, idx):
                 "B %s %d:9,%d:5000,%d:9" % (t, pid + 3, pid + 4, pid + 5), "A %s %d 13" % (t, pid + 6)]
         pid += 7
     if kind == "consumed":
+        if idx % 2 == 1:
+            # a restart before the reads: the persisted positions are then SEALED positions (chain index,
+            # offset) instead of tail positions (seeded change c11b-2 — a lost clamp of the chain index at
+            # start-up — needs a sealed position; the first version of the bases had none)
+            ops.append("RESTART")
         for t in topics:
             for _ in range(rng.choice([1, 2, 5])):
                 ops.append(rng.choice(["R %s 1" % t, "BR %s %d 1 -" % (t, rng.choice([1, 200, 5000]))]))
@@ -393,6 +398,20 @@ def gen_index_mutants(rng, base, tier):
             add("%s-flip@%d" % (ref, p), edit(ref, p, [data[p] ^ (1 << rng.randrange(8))]))
         for p in [max(0, n - 4), max(0, n - 8), max(0, n - 12), 0]:
             add("%s-ff@%d" % (ref, p), edit(ref, p, b"\xff\xff\xff\x7f"[:n - p]))
+        # field-shaped damage: every aligned 8-byte word that looks like a position field (a small number,
+        # or one carrying the tail flag in its top bit) is nudged up/down, made huge, and has the flag toggled
+        words = []
+        for p in range(0, n - 7, 8):
+            v = int.from_bytes(data[p:p + 8], "little")
+            if v < 4096 or (v >> 63) == 1:
+                words.append((p, v))
+        if tier == "quick" and len(words) > 8:
+            words = sorted(rng.sample(words, 8))
+        for p, v in words:
+            for nv, tag in ((v + 1, "inc"), (v + 2, "inc2"), ((v & ~(1 << 63)) + 1000, "big"), (v ^ (1 << 63), "flag"), ((1 << 62) + 5, "huge"), (max(0, (v & ~(1 << 63)) - 1) | (v & (1 << 63)), "dec")):
+                nv &= (1 << 64) - 1
+                if nv != v:
+                    add("%s-word-%s@%d" % (ref, tag, p), edit(ref, p, list(nv.to_bytes(8, "little"))))
         add("%s-garbage" % ref, dict(op="replace", file=ref, hex=bytes(rng.randrange(256) for _ in range(rng.choice([3, 40, 200]))).hex()))
         add("%s-zeroed" % ref, dict(op="zero", file=ref, off=0, len=n))
         add("%s-extended" % ref, dict(op="append", file=ref, hex=bytes(rng.randrange(256) for _ in range(5)).hex()))
@@ -606,7 +625,7 @@ def run(ctx):
     try:
         # ---------------- 1. bases
         bases = []
-        nb_pure, nb_cons = (4, 1) if quick else (10, 4)
+        nb_pure, nb_cons = (4, 2) if quick else (10, 6)
         for i in range(nb_pure + nb_cons):
             kind = "pure" if i < nb_pure else "consumed"
             ops = gen_base_ops(rng, kind, i)
